@@ -53,6 +53,7 @@ def parseInj (ws : List String) : Option Inj :=
       | "writeerr" => some FaultKind.writeerr
       | "truncerr" => some FaultKind.truncerr
       | "dberr" => some FaultKind.dberr
+      | "dbcommit" => some FaultKind.dberr     -- body ran, commit failed: bbolt rolled back, same durable effect
       | _ => none
     kind.map (fun k => .fault k (nat! s) (nat! a))
   | _ => none
